@@ -1,6 +1,7 @@
 package an
 
 import (
+	"os"
 	"fmt"
 	"go/constant"
 	"go/token"
@@ -110,6 +111,8 @@ type Evaluator struct {
 	nextList  int
 	curCall   *ssa.Call
 	recvOv    Val
+	mapLits   map[*ssa.Global]Val
+	mapLitOK  map[*ssa.Global]bool
 	lists     map[int]*ListV
 	fieldMemo map[string]Val
 	busyField map[string]bool
@@ -436,6 +439,19 @@ func (x *Evaluator) evalU(v ssa.Value, e *env, c *evalCtx) Val {
 	case *ssa.Lookup:
 		if isString(v.X.Type()) {
 			return OpaqueV{"byte-of-string"}
+		}
+		if !v.CommaOk {
+			if os.Getenv("VERIF_DEBUG") == "maplit" {
+				fmt.Fprintf(os.Stderr, "MAPLIT lookup X=%T %v idx=%T %v\n", x.evalC(v.X, e, c), v.X, x.evalC(v.Index, e, c), x.evalC(v.Index, e, c))
+			}
+			if m, ok := x.evalC(v.X, e, c).(MapV); ok {
+				if k, ok := constKeyOf(x.evalC(v.Index, e, c)); ok {
+					if val, ok := m.Entries[k]; ok {
+						return val
+					}
+					return x.zeroOf(v.Type())
+				}
+			}
 		}
 		return OpaqueV{"maplookup"}
 	case *ssa.Index:
@@ -940,6 +956,12 @@ func (x *Evaluator) evalLoad(v *ssa.UnOp, e *env, c *evalCtx) Val {
 	case *ssa.IndexAddr:
 		return x.evalElemRead(a, v.Type(), e, c)
 	case *ssa.Global:
+		// a package-level table written as a map literal and never stored to again
+		if _, isMap := v.Type().Underlying().(*types.Map); isMap {
+			if m, ok := x.globalMapLiteral(a); ok {
+				return m
+			}
+		}
 		// package-level state of the converter package behaves like a field of the (single) converter
 		if a.Pkg != nil && a.Pkg == v.Parent().Pkg && (isInt(v.Type()) || isString(v.Type())) {
 			if isInt(v.Type()) && e.site != "" && storesGlobal(v.Parent(), a) {
@@ -1580,4 +1602,157 @@ func storesField(fn *ssa.Function, fa *ssa.FieldAddr) bool {
 		}
 	}
 	return false
+}
+
+// MapV: a constant table (map literal with constant keys).
+type MapV struct{ Entries map[string]Val }
+
+func constKeyOf(v Val) (string, bool) {
+	switch k := v.(type) {
+	case StrV:
+		if s, ok := litOnly(k.T); ok {
+			return "s:" + s, true
+		}
+	case IntV:
+		if k.Const != nil {
+			return fmt.Sprintf("i:%d", *k.Const), true
+		}
+	case BoolV:
+		if k.Const != nil {
+			return fmt.Sprintf("b:%v", *k.Const), true
+		}
+	}
+	return "", false
+}
+
+func (x *Evaluator) zeroOf(t types.Type) Val {
+	switch {
+	case isString(t):
+		return strV(Tmpl{})
+	case isInt(t):
+		return intConst(0)
+	case isBool(t):
+		return boolConst(false)
+	}
+	if _, ok := t.Underlying().(*types.Map); ok {
+		return MapV{Entries: map[string]Val{}}
+	}
+	return OpaqueV{"zero"}
+}
+
+// globalMapLiteral: the global is assigned once, in the package initialiser, a map built by
+// make + constant-key stores (what a composite literal compiles to), and no function of the
+// package stores to it or into it afterwards.
+func (x *Evaluator) globalMapLiteral(g *ssa.Global) (Val, bool) {
+	if x.mapLits == nil {
+		x.mapLits = map[*ssa.Global]Val{}
+		x.mapLitOK = map[*ssa.Global]bool{}
+	}
+	if v, done := x.mapLits[g]; done {
+		return v, x.mapLitOK[g]
+	}
+	x.mapLits[g] = nil
+	pkg := g.Pkg
+	if pkg == nil {
+		return nil, false
+	}
+	initFn := pkg.Func("init")
+	if initFn == nil {
+		return nil, false
+	}
+	// stores to the global outside init, or map updates through a load of it anywhere: not a constant table
+	var initStore *ssa.Store
+	for _, m := range pkg.Members {
+		fn, ok := m.(*ssa.Function)
+		if !ok {
+			continue
+		}
+		fns := append([]*ssa.Function{fn}, fn.AnonFuncs...)
+		for _, f := range fns {
+			for _, b := range f.Blocks {
+				for _, ins := range b.Instrs {
+					switch y := ins.(type) {
+					case *ssa.Store:
+						if y.Addr == ssa.Value(g) {
+							if f == initFn && initStore == nil {
+								initStore = y
+							} else {
+								return nil, false
+							}
+						}
+					case *ssa.MapUpdate:
+						if u, ok := y.Map.(*ssa.UnOp); ok && u.X == ssa.Value(g) {
+							return nil, false
+						}
+					}
+				}
+			}
+		}
+	}
+	// methods of the package's types may also write the table
+	for _, f := range x.W.Funcs(x.Role) {
+		for _, b := range f.Blocks {
+			for _, ins := range b.Instrs {
+				switch y := ins.(type) {
+				case *ssa.Store:
+					if y.Addr == ssa.Value(g) && y != initStore {
+						return nil, false
+					}
+				case *ssa.MapUpdate:
+					if u, ok := y.Map.(*ssa.UnOp); ok && u.X == ssa.Value(g) {
+						return nil, false
+					}
+				}
+			}
+		}
+	}
+	if os.Getenv("VERIF_DEBUG") == "maplit" {
+		fmt.Fprintf(os.Stderr, "MAPLIT global %s initStore=%v\n", g.Name(), initStore != nil)
+	}
+	if initStore == nil {
+		return nil, false
+	}
+	var build func(v ssa.Value, d int) (Val, bool)
+	build = func(v ssa.Value, d int) (Val, bool) {
+		if d > 3 {
+			return nil, false
+		}
+		switch y := v.(type) {
+		case *ssa.Const:
+			return constVal(y), true
+		case *ssa.MakeMap:
+			m := MapV{Entries: map[string]Val{}}
+			if y.Referrers() == nil {
+				return m, true
+			}
+			for _, ref := range *y.Referrers() {
+				mu, ok := ref.(*ssa.MapUpdate)
+				if !ok || mu.Map != ssa.Value(y) {
+					continue
+				}
+				kc, ok := mu.Key.(*ssa.Const)
+				if !ok {
+					return nil, false
+				}
+				k, ok := constKeyOf(constVal(kc))
+				if !ok {
+					return nil, false
+				}
+				val, ok := build(mu.Value, d+1)
+				if !ok {
+					return nil, false
+				}
+				m.Entries[k] = val
+			}
+			return m, true
+		}
+		return nil, false
+	}
+	val, ok := build(initStore.Val, 0)
+	if os.Getenv("VERIF_DEBUG") == "maplit" {
+		fmt.Fprintf(os.Stderr, "MAPLIT built %s ok=%v %T\n", g.Name(), ok, val)
+	}
+	x.mapLits[g] = val
+	x.mapLitOK[g] = ok
+	return val, ok
 }
